@@ -33,6 +33,9 @@
 #include <string.h>
 #include <stdarg.h>
 #include <unistd.h>
+#include <stddef.h>
+#include <sys/types.h>
+#include <sys/wait.h>
 
 #include "comm/sercomm.c"       /* the tree's file, unmodified */
 
@@ -64,27 +67,135 @@ static void on_rx(uint8_t dlci, struct msgb *msg)
 }
 
 /* ------------------------------------------------------------------ violations */
+/* A violation is only reported (V line) with an event list that reproduces it when executed alone in a
+ * process that never ran any other code under test ("pristine"): the exploration runs millions of cases in
+ * one process and resets the `sercomm` structure between them, but state the code under test keeps
+ * elsewhere (other statics, allocator) survives, so what a case shows inside the exploration may be residue
+ * of other cases.  A pristine verifier process is forked before anything runs; per request it forks a child
+ * that executes one event list and answers with the violation keys and a digest of the final state.  Keys
+ * seen in the exploration for which no candidate reproduces alone are reported as HD lines. */
 #define MAXV 60
-static char vkeys[MAXV][80];
-static int nvk;
-static unsigned long nviol;
+#define MAXATT 400
+struct vrec { char key[80]; int confirmed, attempts; unsigned long count, next_try; char msg[500]; char ex[600]; };
+static struct vrec vr[MAXV];
+static int nvr;
+static unsigned long nviol, n_verify;
 static int bad, quiet;
 static const char *(*trace_fn)(void);
+static int verify_enabled;
+static int in_child;            /* verifier child: collect keys, print nothing */
+static char child_keys[2400];
+static int vrq = -1; static FILE *vrs;
+
+static int run_tokens(const char *s);
+static uint64_t state_digest(void);
+#define HDIE(...) do { if (in_child) _exit(3); fprintf(res, __VA_ARGS__); fflush(res); exit(3); } while (0)
+
+static void verifier_start(void)
+{
+	int rq[2], rs[2];
+	pid_t srv;
+	if (pipe(rq) || pipe(rs)) exit(3);
+	srv = fork();
+	if (srv < 0) exit(3);
+	if (srv == 0) {
+		static char line[16384];
+		FILE *in;
+		close(rq[1]); close(rs[0]);
+		in = fdopen(rq[0], "r");
+		while (in && fgets(line, sizeof(line), in)) {
+			int st = 0;
+			pid_t c;
+			line[strcspn(line, "\n")] = 0;
+			c = fork();
+			if (c == 0) {
+				static char out[2600];
+				in_child = 1; child_keys[0] = 0;
+				run_tokens(line);
+				snprintf(out, sizeof(out), "R %016llx %s\n", (unsigned long long)state_digest(), child_keys);
+				if (write(rs[1], out, strlen(out)) < 0) _exit(1);
+				_exit(0);
+			}
+			if (c < 0 || waitpid(c, &st, 0) < 0 || !(WIFEXITED(st) && WEXITSTATUS(st) == 0))
+				if (write(rs[1], "DIED\n", 5) < 0) _exit(1);
+		}
+		_exit(0);
+	}
+	close(rq[0]); close(rs[1]);
+	vrq = rq[1]; vrs = fdopen(rs[0], "r");
+}
+
+/* executes the event list alone in a pristine process.  returns 1 if `key` shows up there (or the case
+ * kills the process) */
+static int verify_case(const char *tok, const char *key, uint64_t *digest, int *nkeys)
+{
+	static char line[4096], pat[128];
+	if (dprintf(vrq, "%s\n", tok) < 0 || !fgets(line, sizeof(line), vrs)) {
+		fprintf(res, "{\"harness_error\": \"verifier process lost\"}\n"); fflush(res); exit(3);
+	}
+	n_verify++;
+	if (!strncmp(line, "DIED", 4)) { if (digest) *digest = 0; if (nkeys) *nkeys = -1; return 1; }
+	if (digest) *digest = strtoull(line + 2, NULL, 16);
+	if (nkeys) { int n = 0; const char *q; for (q = line + 18; *q; q++) n += *q == ';'; *nkeys = n; }
+	snprintf(pat, sizeof(pat), " %s;", key);
+	return strstr(line + 18, pat) != NULL;
+}
+
+static struct vrec *vrec_for(const char *key)
+{
+	int i;
+	for (i = 0; i < nvr; i++) if (!strcmp(vr[i].key, key)) return &vr[i];
+	if (nvr >= MAXV) return NULL;
+	memset(&vr[nvr], 0, sizeof(vr[0]));
+	snprintf(vr[nvr].key, sizeof(vr[0].key), "%s", key);
+	return &vr[nvr++];
+}
 
 static void viol(const char *key, const char *fmt, ...)
 {
 	char msg[700];
 	va_list ap;
-	int i;
+	struct vrec *r;
+	const char *trace;
 	bad = 1;
 	if (quiet) return;
+	if (in_child) {
+		char pat[128];
+		snprintf(pat, sizeof(pat), " %s;", key);
+		if (!strstr(child_keys, pat) && strlen(child_keys) + strlen(pat) < sizeof(child_keys)) strcat(child_keys, pat);
+		return;
+	}
 	nviol++;
-	for (i = 0; i < nvk; i++) if (!strcmp(vkeys[i], key)) return;
-	if (nvk >= MAXV) return;
-	snprintf(vkeys[nvk++], sizeof(vkeys[0]), "%s", key);
+	if (!(r = vrec_for(key))) return;
+	r->count++;
+	if (r->confirmed || r->attempts >= MAXATT) return;
+	/* candidates: the first 150 occurrences, then a geometrically thinning sample */
+	if (r->count > 150 && r->count < r->next_try) return;
+	r->next_try = r->count + r->count / 16 + 1;
+	trace = trace_fn ? trace_fn() : "-";
 	va_start(ap, fmt); vsnprintf(msg, sizeof(msg), fmt, ap); va_end(ap);
-	fprintf(res, "V %s | %s | %s\n", key, msg, trace_fn ? trace_fn() : "-");
+	r->attempts++;
+	if (!verify_enabled || verify_case(trace, key, NULL, NULL)) {
+		r->confirmed = 1;
+		fprintf(res, "V %s | %s | %s\n", key, msg, trace);
+		fflush(res);
+	} else if (r->attempts == 1) {
+		snprintf(r->msg, sizeof(r->msg), "%s", msg);
+		snprintf(r->ex, sizeof(r->ex), "%s", trace);
+	}
+}
+
+static int report_unconfirmed(void)
+{
+	int i, n = 0;
+	for (i = 0; i < nvr; i++)
+		if (!vr[i].confirmed) {
+			fprintf(res, "HD %s | %s | %s | %lu occurrence(s) in this run; %d of their event lists were re-run alone in a fresh process, none shows it there\n",
+				vr[i].key, vr[i].msg, vr[i].ex, vr[i].count, vr[i].attempts);
+			n++;
+		}
 	fflush(res);
+	return n;
 }
 
 static const char *hex(const uint8_t *p, int n)
@@ -132,7 +243,7 @@ static void do_reset(void)
 	memset(&sercomm, 0, sizeof(sercomm));
 	sercomm_init();
 	for (i = 0; i < NDLCI; i++)
-		if (sercomm_register_rx_cb(i, on_rx) != 0) { fprintf(res, "{\"harness_error\": \"register %u\"}\n", i); fflush(res); exit(3); }
+		if (sercomm_register_rx_cb(i, on_rx) != 0) HDIE("{\"harness_error\": \"register %u\"}\n", i);
 	ref_reset();
 }
 
@@ -221,12 +332,12 @@ static void do_send(int dlci, const uint8_t *p, int len)
 {
 	/* sercomm_alloc_msgb(0) is outside the API's domain (msgb_alloc_headroom asserts size > headroom) */
 	struct msgb *msg = sercomm_alloc_msgb(len ? len : 1);
-	if (!msg) { fprintf(res, "{\"harness_error\": \"alloc\"}\n"); fflush(res); exit(3); }
+	if (!msg) HDIE("{\"harness_error\": \"alloc\"}\n");
 	if (len) memcpy(msgb_put(msg, len), p, len);
 	ndv = 0;
 	sercomm_sendmsg(dlci, msg);
 	if (ndv) { viol("C06:idle:spurious-delivery", "handler called from sercomm_sendmsg"); ndv = 0; }
-	if (npend >= MAXPEND) { fprintf(res, "{\"harness_error\": \"pend full\"}\n"); fflush(res); exit(3); }
+	if (npend >= MAXPEND) HDIE("{\"harness_error\": \"pend full\"}\n");
 	pend[npend].dlci = dlci; pend[npend].len = len; pend[npend].p = p; npend++;
 }
 
@@ -389,6 +500,22 @@ static void fingerprint(void)
 	if (sercomm.rx.msg) fp_msg(sercomm.rx.msg);
 	fp_byte(0xA5); fp_u32(sercomm.rx.state); fp_byte(sercomm.rx.dlci); fp_byte(sercomm.rx.ctrl);
 	for (i = 0; i < ARRAY_SIZE(sercomm.rx.dlci_handler); i++) fp_byte(sercomm.rx.dlci_handler[i] != NULL);
+	/* every other byte of the structure, so that members this driver does not know are part of the state too
+	 * (the structure is zeroed at reset; the known pointer-bearing members are blanked out) */
+	{
+		static unsigned char tmp[sizeof(sercomm)];
+		size_t o;
+		memcpy(tmp, &sercomm, sizeof(sercomm));
+#define BLANK(m) memset(tmp + ((char *)&sercomm.m - (char *)&sercomm), 0, sizeof(sercomm.m))
+		BLANK(tx.msg); BLANK(tx.next_char); BLANK(rx.msg);
+#undef BLANK
+		for (o = 0; o < sizeof(sercomm); o++) {
+			size_t q0 = (char *)&sercomm.tx.dlci_queues - (char *)&sercomm, h0 = (char *)&sercomm.rx.dlci_handler - (char *)&sercomm;
+			if (o == q0) { o += sizeof(sercomm.tx.dlci_queues) - 1; continue; }
+			if (o == h0) { o += sizeof(sercomm.rx.dlci_handler) - 1; continue; }
+			fp_byte(tmp[o]);
+		}
+	}
 	/* reference */
 	fp_byte(0xB1);
 	for (i = 0; i < (unsigned)npend; i++) { fp_byte(pend[i].dlci); fp_u32(pend[i].len); fp_bytes(pend[i].p, pend[i].len); }
@@ -396,6 +523,8 @@ static void fingerprint(void)
 	if (have_cur) { fp_byte(cur.dlci); fp_u32(cur.len); fp_bytes(cur.p, cur.len); fp_u32(cur_idx); fp_byte(cur_esc); fp_byte(cur_overlong); fp_u32(cur_wirelen); }
 	fp_byte(0xB3); fp_byte(desync); fp_byte(taint);
 }
+
+static uint64_t state_digest(void) { fingerprint(); return f1 ^ ((f2 << 1) | (f2 >> 63)); }
 
 /* ------------------------------------------------------------------ payload alphabet of space A */
 static const uint8_t PA[][4] = { {0}, {0x7E}, {0x7D}, {0x00}, {0x41}, {0x7E, 0x7D}, {0x7D, 0x5E}, {0x41, 0x00, 0x42}, {0x5E} };
@@ -443,6 +572,10 @@ static void ev_apply(const struct event *e)
 	case 'q': do_pull(0); break;
 	case 'P': run_frame(1); break;
 	case 'Q': run_frame(0); break;
+	case 'I':      /* the transmitter must be idle now */
+		if (have_cur || npend) viol("C06:tx:stalled", "%d message(s) still not transmitted", npend + have_cur);
+		else do_pull(0);
+		break;
 	case 'n': do_noise(e->a); break;
 	case 'o': do_overlong(e->a); break;
 	}
@@ -537,7 +670,15 @@ static int do_bfs(int argc, char **argv)
 			for (k = 0; k < n; k++) ev_apply(&alpha[path[k]]);
 			quiet = 0;
 			nreplayed += n;
-			if (bad) { fprintf(res, "{\"harness_error\": \"stored path is bad on replay\"}\n"); fflush(res); exit(3); }
+			if (bad) {
+				/* the stored path was clean when it was first executed and is not now: the outcome of an
+				 * event list depends on what ran before it in this process */
+				struct vrec *r = vrec_for("path-replay");
+				cur_state = head; cur_ev = -1;
+				if (r) { if (!r->count) { snprintf(r->msg, sizeof(r->msg), "an explored event list shows a violation when it is executed again later in the same process"); snprintf(r->ex, sizeof(r->ex), "%s", bfs_trace()); } r->count++; r->attempts++; }
+				nviol++; nbad++;
+				continue;
+			}
 			cur_state = head; cur_ev = i;
 			ev_apply(&alpha[i]);
 			ntrans++;
@@ -559,13 +700,36 @@ static int do_bfs(int argc, char **argv)
 			htab[h] = nst++;
 		}
 	}
+	/* explored event lists, re-run alone in a pristine process, must end in the state the search recorded
+	 * (same fingerprint) without a violation */
+	unsigned long nsampled = 0, nsample_bad = 0;
+	{
+		uint32_t step = nst / 256 + 1, sidx;
+		struct vrec *r = NULL;
+		for (sidx = nst - 1; sidx > 0 && sidx < nst; sidx = sidx > step ? sidx - step : 0) {
+			uint64_t want = sts[sidx].h1 ^ ((sts[sidx].h2 << 1) | (sts[sidx].h2 >> 63)), got; int nk;
+			cur_state = sidx; cur_ev = -1;
+			verify_case(bfs_trace(), "-", &got, &nk);
+			nsampled++;
+			if (nk != 0 || got != want) {
+				nsample_bad++; nviol++;
+				if (!r && (r = vrec_for("sampled-trace"))) {
+					snprintf(r->msg, sizeof(r->msg), "an explored event list, run alone, %s", nk < 0 ? "kills the process" : nk ? "shows a violation" : "ends in a different state");
+					snprintf(r->ex, sizeof(r->ex), "%s", bfs_trace());
+				}
+				if (r) { r->count++; r->attempts++; }
+			}
+		}
+	}
+	int hd = report_unconfirmed();
+	fprintf(res, "{\"sampled_traces_rerun_alone\": %lu, \"sampled_traces_differing\": %lu}\n", nsampled, nsample_bad);
 	fprintf(res, "{\"states\": %u, \"transitions\": %lu, \"bad_transitions\": %lu, \"depth\": %d, \"depth_bound\": %d, \"states_at_bound_unexpanded\": %lu, "
 		"\"frontier_exhausted\": %s, \"cap_hit\": %s, \"alphabet\": %d, \"revisits\": %lu, \"events_replayed\": %lu, "
 		"\"pull_transitions\": %lu, \"send_transitions\": %lu, \"noise_transitions\": %lu, \"overlong_transitions\": %lu, "
 		"\"states_out_of_sync\": %lu, \"states_mid_frame\": %lu, "
-		"\"frames\": %lu, \"exact_deliveries\": %lu, \"tolerated_deliveries\": %lu, \"violations\": %lu}\n",
+		"\"frames\": %lu, \"exact_deliveries\": %lu, \"tolerated_deliveries\": %lu, \"history_dependent_keys\": %d, \"verify_requests\": %lu, \"violations\": %lu}\n",
 		nst, ntrans, nbad, maxdepth, depth, at_bound, (at_bound == 0 && !hitcap) ? "true" : "false", hitcap ? "true" : "false", nalpha, ndup, nreplayed,
-		per_kind[0], per_kind[1], per_kind[2], per_kind[3], states_desync, states_inframe, n_frames, n_exact, n_tolerated, nviol);
+		per_kind[0], per_kind[1], per_kind[2], per_kind[3], states_desync, states_inframe, n_frames, n_exact, n_tolerated, hd, n_verify, nviol);
 	fflush(res);
 	return nviol ? 1 : 0;
 }
@@ -626,7 +790,7 @@ static int run_tokens(const char *s)
 			do_send(d, longbuf[nlong], len); nlong++;
 		} else if (tok[0] == 'n') { e.a = strtol(tok + 1, NULL, 16) & 0xff; if (have_cur) goto bad_tok; do_noise(e.a); }
 		else if (tok[0] == 'o') { e.a = strtol(tok + 1, NULL, 10); if (have_cur || e.a < RXBUF) goto bad_tok; do_overlong(e.a); }
-		else if (strchr("pqPQ", tok[0]) && !tok[1]) ev_apply(&e);
+		else if (strchr("pqPQI", tok[0]) && !tok[1]) ev_apply(&e);
 		else goto bad_tok;
 		n++;
 		if (bad || abandon) break;      /* the first violation ends the case, as in the search */
@@ -634,7 +798,7 @@ static int run_tokens(const char *s)
 	if (abandon) n_abandoned++;
 	return n;
 bad_tok:
-	fprintf(res, "{\"harness_error\": \"bad token %s\"}\n", tok); fflush(res); exit(3);
+	HDIE("{\"harness_error\": \"bad token %s\"}\n", tok);
 }
 
 static int do_replay(const char *s)
@@ -650,11 +814,11 @@ static void transfer(int dlci, const uint8_t *p, int len, const char *label)
 {
 	bad = 0;
 	if (label) snprintf(casebuf, sizeof(casebuf), "%s", label);
-	else { char *o = casebuf; int i; o += sprintf(o, "s%d.", dlci); if (!len) o += sprintf(o, "-"); for (i = 0; i < len; i++) o += sprintf(o, "%02x", p[i]); sprintf(o, ",P"); }
+	else { char *o = casebuf; int i; o += sprintf(o, "s%d.", dlci); if (!len) o += sprintf(o, "-"); for (i = 0; i < len; i++) o += sprintf(o, "%02x", p[i]); sprintf(o, ",P,I"); }
 	do_send(dlci, p, len);
 	run_frame(1);
 	n_transfers++;
-	if (!bad && (have_cur || npend)) viol("C06:tx:stalled", "frame did not complete");
+	if (!bad) { struct event e = { 'I' }; ev_apply(&e); }
 	if (bad) do_reset();
 }
 
@@ -688,7 +852,7 @@ static int do_sweep(int lo, int hi, int maxlen)
 			static char lab[96];
 			int fill = (a + b) & 1 ? 0x55 : 0x7E;
 			memset(buf, fill, len); buf[0] = EDGE[a]; buf[len - 1] = EDGE[b];
-			snprintf(lab, sizeof(lab), "S%d.%d.%02x.%02x.%02x,P", d, len, EDGE[a], EDGE[b], fill);
+			snprintf(lab, sizeof(lab), "S%d.%d.%02x.%02x.%02x,P,I", d, len, EDGE[a], EDGE[b], fill);
 			transfer(d, buf, len, lab);
 			boundary++;
 		}
@@ -703,14 +867,15 @@ static int do_sweep(int lo, int hi, int maxlen)
 			do_send(d, buf, RXBUF); run_frame(1);
 			if (!bad) { do_send(d, f1p, 2); run_frame(1); }
 			if (!bad) { do_send(d, f2p, 3); run_frame(1); }
-			if (!bad && desync) { fprintf(res, "{\"harness_error\": \"reference still out of sync\"}\n"); fflush(res); exit(3); }
+			if (!bad && desync) HDIE("{\"harness_error\": \"reference still out of sync\"}\n");
 			n_transfers += 3; boundary++;
 			if (bad) do_reset();
 		}
 	}
+	int hd = report_unconfirmed();
 	fprintf(res, "{\"transfers\": %lu, \"frames\": %lu, \"exact_deliveries\": %lu, \"tolerated_deliveries\": %lu, \"wire_octets\": %lu, \"escapes\": %lu, "
-		"\"special_tuples\": %llu, \"boundary_cases\": %lu, \"dlcis\": %d, \"violations\": %lu}\n",
-		n_transfers, n_frames, n_exact, n_tolerated, n_octets, n_escapes, tuples, boundary, hi - lo, nviol);
+		"\"special_tuples\": %llu, \"boundary_cases\": %lu, \"dlcis\": %d, \"history_dependent_keys\": %d, \"verify_requests\": %lu, \"violations\": %lu}\n",
+		n_transfers, n_frames, n_exact, n_tolerated, n_octets, n_escapes, tuples, boundary, hi - lo, hd, n_verify, nviol);
 	return nviol ? 1 : 0;
 }
 
@@ -754,11 +919,12 @@ static int do_resync(int part, int nparts)
 		if (nc) p += sprintf(p, "n%s,", NOISE[cidx]);
 		p += sprintf(p, "%s,%s", FR[f][1], FR[f][2]);
 		run_tokens(casebuf);
-		if (!bad && !abandon && (desync || have_cur || npend)) { fprintf(res, "{\"harness_error\": \"scenario %s did not end in sync\"}\n", casebuf); fflush(res); exit(3); }
+		if (!bad && !abandon && (desync || have_cur || npend)) HDIE("{\"harness_error\": \"scenario %s did not end in sync\"}\n", casebuf);
 		nrun++;
 	} }
+	int hd = report_unconfirmed();
 	fprintf(res, "{\"resync_scenarios\": %lu, \"frames\": %lu, \"exact_deliveries\": %lu, \"tolerated_deliveries\": %lu, \"wire_octets\": %lu, "
-		"\"noise_octets\": %lu, \"overlong_frames\": %lu, \"echoes_queued\": %lu, \"scenarios_abandoned_in_window\": %lu, \"violations\": %lu}\n", nrun, n_frames, n_exact, n_tolerated, n_octets, n_noise, n_overlong, n_echo_queued, n_abandoned, nviol);
+		"\"noise_octets\": %lu, \"overlong_frames\": %lu, \"echoes_queued\": %lu, \"scenarios_abandoned_in_window\": %lu, \"history_dependent_keys\": %d, \"verify_requests\": %lu, \"violations\": %lu}\n", nrun, n_frames, n_exact, n_tolerated, n_octets, n_noise, n_overlong, n_echo_queued, n_abandoned, hd, n_verify, nviol);
 	return nviol ? 1 : 0;
 }
 
@@ -776,19 +942,17 @@ static int do_echo(void)
 		else if (i < 256) { buf[0] = i; len = 1; }
 		else if (i < 256 + 65536) { a = (i - 256) >> 8; b = (i - 256) & 0xff; buf[0] = a; buf[1] = b; len = 2; }
 		else { p = PA[i - 256 - 65536]; len = PALEN[i - 256 - 65536]; }
-		{ char *o = casebuf; int k; o += sprintf(o, "s128."); if (!len) o += sprintf(o, "-"); for (k = 0; k < len; k++) o += sprintf(o, "%02x", p[k]); sprintf(o, ",P,Q"); }
+		{ char *o = casebuf; int k; o += sprintf(o, "s128."); if (!len) o += sprintf(o, "-"); for (k = 0; k < len; k++) o += sprintf(o, "%02x", p[k]); sprintf(o, ",P,Q,I"); }
 		bad = 0;
 		do_send(128, p, len);
-		run_frame(1);                 /* received, handed to sercomm_sendmsg by the receiver */
-		if (!bad && (npend != 1 || sercomm_tx_queue_depth(128) != 1))
-			viol("C06:dlci=0x80:lost", "echo DLCI: payload %s was received but %u message(s) are queued for transmission", hex(p, len), sercomm_tx_queue_depth(128));
+		run_frame(1);                 /* received, handed to sercomm_sendmsg by the receiver (judged there) */
 		if (!bad) run_frame(0);       /* the echo on the wire, judged by the wire rules, not fed back */
-		if (!bad && (npend || have_cur || sercomm_tx_queue_depth(128) != 0)) viol("C06:dlci=0x80:duplicate", "echo DLCI: more than one echo");
-		if (!bad) { uint8_t ch; if (sercomm_drv_pull(&ch) != 0) viol("C06:dlci=0x80:duplicate", "echo DLCI: transmitter not idle after the echo"); }
+		if (!bad) { struct event e = { 'I' }; ev_apply(&e); }   /* exactly one echo */
 		n++;
 		if (bad) do_reset();
 	}
-	fprintf(res, "{\"echo_cases\": %lu, \"frames\": %lu, \"wire_octets\": %lu, \"violations\": %lu}\n", n, n_frames, n_octets, nviol);
+	int hd = report_unconfirmed();
+	fprintf(res, "{\"echo_cases\": %lu, \"frames\": %lu, \"wire_octets\": %lu, \"history_dependent_keys\": %d, \"verify_requests\": %lu, \"violations\": %lu}\n", n, n_frames, n_octets, hd, n_verify, nviol);
 	return nviol ? 1 : 0;
 }
 
@@ -796,6 +960,7 @@ static int do_echo(void)
 static void on_panic(const char *fmt, va_list args)
 {
 	char msg[300];
+	if (in_child) _exit(97);
 	vsnprintf(msg, sizeof(msg), fmt, args);
 	char *nl = strchr(msg, '\n'); if (nl) *nl = 0;
 	char *par = strchr(msg, ')'); /* drop the msgb address: "msgb(0x...): text" */
@@ -809,6 +974,7 @@ static void on_panic(const char *fmt, va_list args)
 static void on_abort(int sig)
 {
 	(void)sig;
+	if (in_child) _exit(96);
 	fprintf(res, "CRASH | %s\n", trace_fn ? trace_fn() : "-");
 	fflush(res);
 	_exit(96);
@@ -822,8 +988,10 @@ int main(int argc, char **argv)
 	signal(SIGABRT, on_abort);
 	osmo_set_panic_handler(on_panic);
 	if (argc < 2) return 2;
+	if ((!strcmp(argv[1], "replay") || !strcmp(argv[1], "case")) && argc >= 3) return do_replay(argv[2]);   /* fresh by construction */
+	verify_enabled = 1;
+	verifier_start();                /* before any code under test has run in this process */
 	if (!strcmp(argv[1], "bfs")) return do_bfs(argc, argv);
-	if (!strcmp(argv[1], "replay") && argc >= 3) return do_replay(argv[2]);
 	if (!strcmp(argv[1], "sweep") && argc >= 5) return do_sweep(atoi(argv[2]), atoi(argv[3]), atoi(argv[4]));
 	if (!strcmp(argv[1], "resync") && argc >= 4) return do_resync(atoi(argv[2]), atoi(argv[3]));
 	if (!strcmp(argv[1], "echo")) return do_echo();
